@@ -1059,7 +1059,7 @@ impl Sim {
         Some(match k {
             K_SEC => self.new_secret(e),
             K_BLOB => self.blob_val(),
-            K_LINK => {
+            K_LINK | K_ATT => {
                 if self.cfg.vis != Vis::All {
                     return None;
                 }
@@ -1089,8 +1089,15 @@ impl Sim {
         let ents = self.ents.clone();
         for e in ents {
             if let Ok(mut em) = self.server.world_mut().get_entity_mut(e) {
-                if em.get::<Link>().is_some_and(|l| l.0 == target) {
+                let link = em.get::<Link>().is_some_and(|l| l.0 == target);
+                let att = em.get::<AttachedTo>().is_some_and(|l| l.0 == target);
+                if link {
                     em.remove::<Link>();
+                }
+                if att {
+                    em.remove::<AttachedTo>();
+                }
+                if link || att {
                     self.mark_struct(e);
                 }
             }
@@ -1297,12 +1304,13 @@ impl Sim {
                 }
             }
             11 => {
-                if let Some(v) = self.fresh_val(e, K_LINK) {
+                let kk = if self.rng.below(3) == 0 { K_ATT } else { K_LINK };
+                if let Some(v) = self.fresh_val(e, kk) {
                     let s = v.short();
                     let mut em = self.server.world_mut().entity_mut(e);
-                    insert_kind(&mut em, K_LINK, v);
+                    insert_kind(&mut em, kk, v);
                     self.mark_struct(e);
-                    self.note(format!("link {e} -> {s}"));
+                    self.note(format!("{} {e} -> {s}", if kk == K_ATT { "attach" } else { "link" }));
                     self.obs.inc("op_link");
                 }
             }
